@@ -233,6 +233,24 @@ CHECKS.update({
     ),
 })
 
+CHECKS.update({
+    "C16": (
+        "exploration",
+        "differential history testing: generated call histories on long-lived "
+        "parser/encoder/decoder instances (incl. the CLI modules' module-level "
+        "instances) versus a fresh instance per call",
+        "Histories of 2-12 parse/encode/decode calls with well-formed, repaired, "
+        "lexer-failing, parser-failing and trailing-junk texts and accepted/refused "
+        "modules are issued to one instance of each class and to pvl_validate's / "
+        "pvl_translate's tables; every call's module, errors attribute and exception "
+        "must equal what a fresh instance gives. All ordered pairs of 12 fixed texts "
+        "run on every invocation. Sampled otherwise.",
+        "Trusted: fresh constructions mirror the documented wiring of each dialect; "
+        "object addresses in messages are masked.",
+        "DESIGN.md 4/C16",
+    ),
+})
+
 PENDING = {}   # id -> reason while a check is not built yet
 
 
